@@ -1,5 +1,6 @@
 #!/bin/sh
-# MANIFEST.setup_cmd: offline; checks the toolchain and warms the Go build cache.
+# MANIFEST.setup_cmd: offline; checks the toolchain and warms the Go build cache
+# (harness against the plain and against the rewritten scratch copy, rewriter).
 set -e
 cd "$(dirname "$0")"
 export GOFLAGS=-mod=mod GOPROXY=off GOSUMDB=off GOTOOLCHAIN=local
@@ -13,5 +14,16 @@ mkdir -p "$T/gogu"
 cp -r harness "$T/harness"
 cp "$T/gogu/go.sum" "$T/harness/go.sum"
 (cd "$T/harness" && go build -o "$T/drive" ./cmd/drive)
+(cd tools && go build -o "$T/rewrite" ./rewrite)
+# the rewritten copy (shims + probes) and the harness with the drivers that use them
+cp -r shim "$T/gogu/zzshim"
+SF="$HOME/go/pkg/mod/golang.org/x/sync@v0.1.0/singleflight/singleflight.go"
+if [ -f "$SF" ]; then
+  mkdir -p "$T/gogu/zzshim/singleflight"
+  sed 's#"sync"#sync "github.com/esimov/gogu/zzshim/vsync"#' "$SF" > "$T/gogu/zzshim/singleflight/singleflight.go"
+  "$T/rewrite" -dir "$T/gogu" -imports -probes heap,bstree,trie,queue,stack,cache,list >/dev/null
+  (cd "$T/gogu" && go build ./...)
+  (cd "$T/harness" && go build -tags vshim -o "$T/drive-v" ./cmd/drive)
+fi
 mkdir -p evidence
 echo "setup ok"
